@@ -151,15 +151,22 @@ WMarshal(x) == /\ w[x].pc = "decoded"
                   THEN w' = [w EXCEPT ![x].pc = "marshalled", ![x].enc = w[x].dec]
                   ELSE w' = [w EXCEPT ![x].pc = "top"]                 \* nothing to publish (template only)
                /\ UNCHANGED <<pool, content, arriving, recv, udpCh, mqCh, udpCount, decCount, stop, closed, sd, published, panicked, quit>> /\ UNCHANGED mvars
+(* Two switches that are definitions, not constants (a configuration overrides them: `PublishBlocks <- MCTrue`), so that   *)
+(* the many configurations of this module need not name them:                                                            *)
+(*   ConsumerDead   nobody takes from the producer queue (`producer-enabled: false`: run() starts no producer; or a      *)
+(*                  producer that has stopped taking messages)                                                            *)
+(*   PublishBlocks  deviation: the hand-over to the producer queue waits for room instead of dropping the message        *)
+ConsumerDead == FALSE
+PublishBlocks == FALSE
 (* non-blocking send: a copy of the encoded message, or (Alias) the encode buffer itself *)
 WPublish(x) == /\ w[x].pc = "marshalled"
                /\ IF Len(mqCh) < MqCap
                   THEN mqCh' = Append(mqCh, [d |-> w[x].d, ref |-> IF Alias THEN x ELSE NoRef, val |-> w[x].enc])
-                  ELSE UNCHANGED mqCh                                   \* queue full: dropped
+                  ELSE ~PublishBlocks /\ UNCHANGED mqCh                \* queue full: dropped (PublishBlocks: the worker waits)
                /\ w' = [w EXCEPT ![x].pc = "top"]
                /\ UNCHANGED <<pool, content, arriving, recv, udpCh, udpCount, decCount, stop, closed, sd, published, panicked, quit>> /\ UNCHANGED mvars
 (* the producer goroutine takes a message: what it reads is what the slice holds NOW *)
-Consume == /\ mqCh # <<>>
+Consume == /\ mqCh # <<>> /\ ~ConsumerDead
            /\ LET m == Head(mqCh)
                   v == IF m.ref = NoRef THEN m.val ELSE w[m.ref].enc IN
               published' = [published EXCEPT ![m.d] = Append(@, v)]
@@ -195,6 +202,17 @@ LiveSpec == /\ Init /\ [][Running]_vars
             /\ WF_vars(Consume) /\ WF_vars(MirrorSend)
 Drains == <>[](/\ arriving = {} /\ udpCh = <<>>
                /\ \A d \in Dgrams : Kind(d) = "data" => Len(published[d]) = 1)
+
+(* ---------------- liveness of the shutdown: once the signal has come, shutdown() returns (sd = "done") whatever the     *)
+(* traffic, as long as every goroutine that can take a step keeps taking steps - also when nobody reads the producer     *)
+(* queue (ConsumerDead).  Checked with SPECIFICATION StopSpec; PublishBlocks must be refuted.                             *)
+Stopping == Next /\ quit' = quit
+StopSpec == /\ Init /\ [][Stopping]_vars
+            /\ WF_vars(RecvCheck \/ RecvGet \/ RecvRead \/ RecvTimeout \/ RecvCount \/ RecvSend)
+            /\ \A x \in Workers : WF_vars(WTop(x) \/ WDequeue(x) \/ WExit(x) \/ WDecode(x) \/ WMarshal(x) \/ WPublish(x) \/ WMirror(x))
+            /\ WF_vars(Consume) /\ WF_vars(MirrorSend)
+            /\ WF_vars(Signal \/ SdStop \/ SdSleepDone \/ SdClose)
+ShutdownEnds == <>(sd = "done")
 
 \* ---------------- properties
 NoPanic == ~panicked
